@@ -3414,6 +3414,8 @@ class PlateSlicer(Slicer):
         Returns: A set of substances present in the plate.
 
         """
+        if not self.size:
+            return set()  # (no wells: numpy.vectorize refuses an empty array)
         substances_arr = numpy.vectorize(lambda elem: set(elem.contents.keys()), cache=True)(self.get())
         return set.union(*substances_arr.flatten())
 
